@@ -737,6 +737,8 @@ class Doman(_InstallWrapper):
                 if match:
                     name = f"{match.group(1)}.{match.group(4)}"
                     mandir = pjoin(match.group(2), mandir)
+                elif self.opts.i18n:
+                    mandir = pjoin(self.opts.i18n, mandir)
 
             if self.valid_mandir_re.match(os.path.basename(mandir)):
                 if mandir not in dirs:
